@@ -376,44 +376,46 @@ Section Model.
          end)
       defs (Ok []).
 
-  (** *** validator.CoerceArgumentValues *)
+  (** *** validator.CoerceArgumentValues: the body of the loop over the argument definitions
+      ([argument_values]: the map from argument name to the literal the document gives it) *)
+  Definition arg_step (argument_values : list (name * lit)) (vv : cvars)
+             (acc : res (list (name * gval))) (ad : name * in_def) : res (list (name * gval)) :=
+    match acc with
+    | Ok coerced =>
+        let (aname, d) := ad in
+        let av := aget aname argument_values in
+        let has_value := match av with
+                         | Some (LVar vn) => ahas vn vv
+                         | Some _ => true
+                         | None => false
+                         end in
+        match has_value, in_default d with
+        | false, Some dv => Ok (mset aname (default_value dv) coerced)
+        | _, _ =>
+            if is_nonnull (in_type d) && negb has_value then Err     (* The argument is required. *)
+            else if has_value then
+              match av with
+              | Some (LVar vn) =>
+                  let value := match aget vn vv with Some v => v | None => GNil end in
+                  if fix_null_var fx && is_nil value && is_nonnull (in_type d) then Err
+                  else Ok (mset aname value coerced)
+              | Some l =>
+                  match coerce_literal vv l (in_type d) true with
+                  | Ok c => Ok (mset aname c coerced)
+                  | Err => Err
+                  | Panic => Panic
+                  end
+              | None => Ok coerced
+              end
+            else Ok coerced
+        end
+    | _ => acc
+    end.
+
   Definition coerce_argument_values (argdefs : list (name * in_def)) (args : list (name * lit)) (vv : cvars)
     : res (list (name * gval)) :=
     let argument_values := fold_left (fun m (a : name * lit) => mset (fst a) (snd a) m) args [] in
-    fold_left
-      (fun (acc : res (list (name * gval))) (ad : name * in_def) =>
-         match acc with
-         | Ok coerced =>
-             let (aname, d) := ad in
-             let av := aget aname argument_values in
-             let has_value := match av with
-                              | Some (LVar vn) => ahas vn vv
-                              | Some _ => true
-                              | None => false
-                              end in
-             match has_value, in_default d with
-             | false, Some dv => Ok (mset aname (default_value dv) coerced)
-             | _, _ =>
-                 if is_nonnull (in_type d) && negb has_value then Err     (* The argument is required. *)
-                 else if has_value then
-                   match av with
-                   | Some (LVar vn) =>
-                       let value := match aget vn vv with Some v => v | None => GNil end in
-                       if fix_null_var fx && is_nil value && is_nonnull (in_type d) then Err
-                       else Ok (mset aname value coerced)
-                   | Some l =>
-                       match coerce_literal vv l (in_type d) true with
-                       | Ok c => Ok (mset aname c coerced)
-                       | Err => Err
-                       | Panic => Panic
-                       end
-                   | None => Ok coerced
-                   end
-                 else Ok coerced
-             end
-         | _ => acc
-         end)
-      argdefs (Ok []).
+    fold_left (arg_step argument_values vv) argdefs (Ok []).
 
   (** *** static counterpart: validator.validateCoercion ([true] = no error).  The [None] branch
       (Go: panic "unsupported input coercion type") is unreachable when every named type is in
